@@ -223,6 +223,14 @@ def _independent_es(sa, comps):
     return tot, mag, per_area
 
 
+def _es_grid(case):
+    """extend-split on other nodal grid families (None -> the default TrapezoidalGrid of drive.build_es)"""
+    k = case.get("esgrid", "trapezoidal")
+    if k == "trapezoidal":
+        return None
+    return make_local_grid(k, np.array(case["a"], dtype=float), np.array(case["b"], dtype=float), True)
+
+
 def run_adaptive(case):
     out = Outcome()
     kind = case["kind"]
@@ -248,7 +256,7 @@ def run_adaptive(case):
             case = dict(case, boundary=True)
         sa, op = build(case, f, grid=make_global_grid(case))
     else:
-        sa, op = build(case, f)
+        sa, op = build(case, f, grid=_es_grid(case))
     case = dict(case, maxsteps=30)      # depth guard: targeted tapes would otherwise refine below double precision
     res, _ = drive.run_history(sa, case, before_refine=before_refine, after_refine=after_refine, clean_stop=True,
                                reevaluate_at_end=False)
@@ -313,7 +321,7 @@ def run_adaptive(case):
             out.bad(sub + "/evaluate_final_combi/differs", "%s: %s vs reported %s" % (tag, fin, reported))
     # twin run with reevaluate_at_end=True
     comps2, f2 = _integrand(case)
-    sa2, op2 = build(case, f2, grid=make_global_grid(case)) if kind == "dw" else build(case, f2)
+    sa2, op2 = build(case, f2, grid=make_global_grid(case)) if kind == "dw" else build(case, f2, grid=_es_grid(case))
     res2, _ = drive.run_history(sa2, case, clean_stop=True, reevaluate_at_end=True)
     if res2 is None:
         raise RuntimeError("twin run did not stop although the first run did")
@@ -327,6 +335,8 @@ def run_adaptive(case):
     out.cls("version=%d" % case["version"], "steps>=2" if st_["steps"] >= 2 else "steps<2", _scale_class(case))
     if kind == "dw":
         out.cls("dwgrid=" + case.get("dwgrid", "trapezoidal"))
+    else:
+        out.cls("esgrid=" + case.get("esgrid", "trapezoidal"), "auto=%s" % case.get("auto"))
     out.info = dict(max_steps=st_["steps"], max_points=int(res[6][-1]))
     return out
 
@@ -391,6 +401,13 @@ def es_strategy(tier):
         c["nout"] = draw(st.integers(1, 2))
         c["extra"] = draw(st.sampled_from([0, 0, 1, 20, 80]))
         c["maxev"] = min(c["maxev"], 700)
+        c["esgrid"] = draw(st.sampled_from(["trapezoidal", "trapezoidal", "clenshawcurtis", "gausslegendre", "simpson"]))
+        if c["esgrid"] != "trapezoidal":
+            # split_single_dim with a non-trapezoidal grid trips the library's own assertion in get_sum_sibling_value (it
+            # expects 2 or 2^d evaluated children); the statement does not quantify over that combination
+            c["ssd"] = False
+            c["boundary"] = True
+            c["maxev"] = min(c["maxev"], 400)
         return drive.apply_boxscale(c, drive.st_boxscale(draw, c["dim"]))
     return s()
 
